@@ -38,7 +38,9 @@ NoErrNames(out) == [i \in DOMAIN out |-> IF out[i].ev = "error" THEN [out[i] EXC
 (* names of the things on which specification and log disagree at record r *)
 Disagreement(a, r) ==
   LET d == DigOf(a.st)  o == ObsOf(a.st) IN
-  (IF NoErrNames(a.out) # NoErrNames(r.out) THEN {"out"} ELSE {})      \* which error is named is not compared
+  \* which error is named is not compared; runs of `released` events come out of a hash set: compared as sets
+  (IF NonRel(NoErrNames(a.out)) # NonRel(NoErrNames(r.out)) \/ RelSet(a.out) # RelSet(r.out) \/ Len(RelSeq(a.out)) # Len(RelSeq(r.out))
+   THEN {"out"} ELSE {})
   \cup (IF a.call.ok # r.call.ok \/ a.call.id # r.call.id THEN {"ret"} ELSE {})
   \cup (IF o.vacancy # r.obs.vacancy THEN {"obs.vacancy"} ELSE {})
   \cup (IF o.stored # r.obs.stored THEN {"obs.stored"} ELSE {})
